@@ -203,11 +203,13 @@ def partial_rotary_model(p):
         M = p.get("max_pos", 4)
         cos = g.inp("cos", dt, [M, r // 2])
         sin = g.inp("sin", dt, [M, r // 2])
-        rope = g.op("RotaryEmbedding", [x1, pos, cos, sin], domain=MS, num_heads=H, **attrs)
+        nh = {} if p.get("num_heads_absent") else {"num_heads": H}      # optional for 4-D input
+        rope = g.op("RotaryEmbedding", [x1, pos, cos, sin], domain=MS, **nh, **attrs)
     else:
         cos = g.inp("cos", dt, [B, S, r // 2])
         sin = g.inp("sin", dt, [B, S, r // 2])
-        rope = g.op("RotaryEmbedding", [x1, cos, sin], num_heads=H, **attrs)
+        nh = {} if p.get("num_heads_absent") else {"num_heads": H}
+        rope = g.op("RotaryEmbedding", [x1, cos, sin], **nh, **attrs)
     y = g.op("Concat", [rope, x2], axis=-1)
     g.op("Identity", [y], out="y")
     g.out("y", dt, [B, H, S, D])
@@ -249,7 +251,8 @@ def sdpa_model(p):
     if p.get("mask") is not None:
         m = g.inp("mask", dt, list(p["mask"]))
         score = g.op("Add", [score, m])
-    w = g.op("Softmax", [score], axis=p.get("softmax_axis", -1))
+    sa = p.get("softmax_axis", -1)
+    w = g.op("Softmax", [score], **({} if sa is None else {"axis": sa}))      # None: attribute absent (default -1 from opset 13)
     if p.get("nan_guard"):
         w = g.op("Where", [g.op("IsNaN", [w]), g.const(0.0, dt), w])
     y = g.op("MatMul", [w, v])
